@@ -312,6 +312,78 @@ def conforms_x(v, s, named, tuple_notation=True, strict=False):
     return CC.conforms(v, s, named, tuple_notation)
 
 
+def writable_x(v, s, named, tuple_notation=True):
+    """conforms_x for the default writer, with the union rule of C09: a dict carrying a "-type" entry (not None) under a
+    union may only go to a record branch of that name (it is an error when there is none)"""
+    s = resolve(s, named)
+    if isinstance(s, list):
+        if isinstance(v, tuple) and tuple_notation:
+            if len(v) != 2:
+                return False
+            for b in s:
+                if branch_label(b) == v[0]:
+                    return writable_x(v[1], b, named, tuple_notation)
+            return False
+        cands = s
+        if isinstance(v, dict) and v.get("-type") is not None:
+            cands = [b for b in s if tname(b, named) in ("record", "error") and resolve(b, named)["name"] == v["-type"]]
+        return any(writable_x(v, b, named, tuple_notation) for b in cands)
+    t = s if isinstance(s, str) else s["type"]
+    if t == "array":
+        return isinstance(v, (list, tuple, bytes, bytearray)) and all(writable_x(x, s["items"], named, tuple_notation) for x in v)
+    if t == "map":
+        return isinstance(v, dict) and all(isinstance(k, str) for k in v) and \
+            all(writable_x(x, s["values"], named, tuple_notation) for x in v.values())
+    if t in ("record", "error"):
+        if not isinstance(v, dict):
+            return False
+        if "-type" in v and v["-type"] != s["name"]:
+            return False
+        for f in s["fields"]:
+            if f["name"] in v:
+                if not writable_x(v[f["name"]], f["type"], named, tuple_notation):
+                    return False
+            elif "default" in f:
+                if not writable_x(f["default"], f["type"], named, tuple_notation):
+                    return False
+            elif not writable_x(None, f["type"], named, tuple_notation):
+                return False
+        return True
+    return CC.conforms(v, s, named, tuple_notation)
+
+
+def is_named_branch(b, named):
+    return (isinstance(b, str) and b not in PRIMS) or (isinstance(b, dict) and b["type"] in NAMED)
+
+
+def closure_applicable(pv, s, named, tree):
+    """the statement's closure clause covers this value: every union value either sits under a NAMED branch (and came
+    back as a (name, value) pair) or is a plain value that re-resolves to the same branch under the statement's rule"""
+    s = resolve(s, named)
+    if isinstance(s, list):
+        _, i, sub = tree
+        b = s[i]
+        if is_named_branch(b, named):
+            if not (isinstance(pv, tuple) and len(pv) == 2):
+                return False
+            return closure_applicable(pv[1], b, named, sub)
+        if isinstance(pv, tuple):
+            return False
+        if expected_indices(pv, s, named, True) != {i}:
+            return False
+        return closure_applicable(pv, b, named, sub)
+    t = s if isinstance(s, str) else s["type"]
+    if t == "array" and isinstance(pv, list) and len(pv) == len(tree):
+        return all(closure_applicable(x, s["items"], named, tr) for x, tr in zip(pv, tree))
+    if t == "map" and isinstance(pv, dict):
+        if len(pv) != len(tree):
+            return False               # duplicate keys cannot arise from a dict; be safe
+        return all(closure_applicable(x, s["values"], named, tr) for x, tr in zip(pv.values(), tree))
+    if t in ("record", "error") and isinstance(pv, dict):
+        return all(closure_applicable(pv[f["name"]], f["type"], named, tr) for f, tr in zip(s["fields"], tree))
+    return True
+
+
 def shared(v, rb):
     return len(set(f["name"] for f in rb["fields"]) & set(v)) if isinstance(v, dict) else 0
 
@@ -319,6 +391,8 @@ def shared(v, rb):
 def expected_indices(v, bs, named, tn):
     """indices the statement allows for datum v under union bs (no tuple hint): a set, or None for 'must raise'"""
     conf = [k for k, b in enumerate(bs) if CC.conforms(v, b, named, tn)]
+    if isinstance(v, dict) and v.get("-type") is not None:      # a '-type' hint selects exactly the named record branch
+        conf = [k for k in conf if tname(bs[k], named) in ("record", "error") and resolve(bs[k], named)["name"] == v["-type"]]
     if not conf:
         return None
     nonrec = [k for k in conf if tname(bs[k], named) not in ("record", "error")]
@@ -456,7 +530,7 @@ def check_choice(v, schema, named, data, tn):
             continue
         if not CC.conforms(x, bs[i], named, tn):
             return False, f"index {i} at {path}: the datum does not conform to that branch", "non-conforming-branch"
-        if hint and hint[0] == "type":
+        if hint and hint[0] == "type" and hint[1] is not None:
             rb = resolve(bs[i], named)
             if not (isinstance(rb, dict) and rb["type"] in ("record", "error") and rb["name"] == hint[1]):
                 feat = "type-hint:non-record-branch-chosen" if U_is_nonrecord(rb) else "type-hint:other-record-chosen"
